@@ -2,7 +2,7 @@
     ExtrOcamlBasic only (its Extract Inductive for bool, option, unit, list, prod, sumbool,
     sumor, comparison as shipped); no Extract Constant; nat stays Peano. *)
 From Coq Require Extraction ExtrOcamlBasic.
-From Tephra Require Import Base Text Metrics Span Source Scanner CLexer Ctx Grammar Run Render.
+From Tephra Require Import Base Text Metrics Span Source Scanner CLexer Ctx HCtx Grammar Run Render.
 Extraction Language OCaml.
 Set Extraction KeepSingleton.
 Extraction "model.ml"
@@ -19,5 +19,5 @@ Extraction "model.ml"
   c_new c_with_metrics c_with_le c_with_tab c_with_filter c_set_filter c_start_sublex c_peek c_next
   c_next_if c_next_if_eq c_advance_to c_advance_up_to c_drain c_token_span c_parse_span c_cursor_pos
   c_peek_token_span c_peek_parse_span c_peek_cursor_pos c_is_empty_with_filter c_at_end fuel_of
-  ctx_new run_trees ctx_pushed run mkstore set_met
+  ctx_new run_trees ctx_pushed run mkstore set_met hrun hinit
   sd_new cd_render.
